@@ -19,6 +19,7 @@ pub fn params(tier: Tier) -> ScriptParams {
         timeouts: vec![1500, 3000, 20000],
         big_jumps: true,
         settle_us: 50_000_000,
+        replay_weight: 2, vary_server_limits: true,
     }
 }
 
@@ -130,7 +131,17 @@ pub fn check_event_streams(log: &WorldLog) -> Result<(), Violation> {
                     if state == 0 {
                         // an Error without a connection is the end of a handshake attempt: there must be one
                         // (a SYN-ACK or refusal sent to this address) that no earlier event accounts for
-                        if !attempts.iter().any(|s| *s > consumed_until && *s < *seq) {
+                        // (a refusal is put on the wire by the same step() that reports the Error; the wire log of a
+                        // step is numbered after its events, hence the bound is the beginning of the next step)
+                        let step_end = w.server_steps.iter().map(|p| p.0).find(|s| *s > *seq).unwrap_or(u64::MAX);
+                        let matched = attempts.iter().copied().find(|s| *s > consumed_until && *s < step_end);
+                        if let Some(m) = matched {
+                            // each attempt accounts for one Error only
+                            consumed_until = m.max(*seq);
+                            state = 0;
+                            continue;
+                        }
+                        {
                             return Err(Violation::new(
                                 format!("oracle:c08:server_error_without_connection_or_attempt:{:?}", err),
                                 format!("server reported Error({a}, {:?}) at t={t} us although that address has neither a connection (never connected, already ended, or dropped by the application) nor an unanswered handshake attempt", err),
